@@ -486,7 +486,7 @@ def sib_iter(ctx: Ctx) -> List[Ob]:
         obs.append(ctx.tri("SIB-ITER", ["C06"], f, "visit: add_self calls back on self last for post-order", None, okq,
                            "visit() must follow the iterator: start node last for POST_ORDER"))
         # the child loop is reached only if the callback on the start node did not answer False
-        firsts = [c for c in cbs if len(loops) == 1 and never_after(ctx, f, loops[0], c)]
+        firsts = [c for c in cbs if len(loops) == 1 and never_after(ctx, f, loops[0], c) and not never_after(ctx, f, c, loops[0])]  # before the child loop, and the loop can follow
         oks: Optional[bool] = None
         if len(loops) == 1 and firsts:
             lpc = path_conds(ctx, f, loops[0])
